@@ -496,7 +496,8 @@ impl RoomAuthorisations {
         }
 
         for edge in &deletion_query.edges {
-            match edge.edge.src_entity.as_str() {
+            //the constants are entity names: the name of the source entity is compared, not its identifier
+            match edge.src_name.as_str() {
                 system_entities::ROOM_ENT
                 | system_entities::AUTHORISATION_ENT
                 | system_entities::ENTITY_RIGHT_ENT
